@@ -84,3 +84,77 @@ def age(s, m, rng, nv, steps=12, held=None):
                 b = rng.choice(held)
                 s.op(m, 'apply', rng.choice(['and', 'or', 'xor']), a, b, None)
     return held
+
+
+def reuse_scenarios(ctx, key, label, nv=3, reps=10):
+    """Targeted histories around collection and node-number re-use:
+    (A) operands held, result dropped, collect, other nodes take the freed
+        numbers, the same question is asked again;
+    (B) result held, an operand dropped, collect, another function takes the
+        operand's number, the same operator is applied to it.
+    Every result is checked semantically; every step is compared with the
+    model through the session."""
+    from . import oracle, tt as T
+    from .impl import vname
+    rng = ctx.rng
+    names = list(range(nv))
+    full = T.full(nv)
+    for rep in range(reps):
+        order = list(names)
+        rng.shuffle(order)
+        s = ctx.session(f'{label} reuse rep={rep}')
+        s.op(0, 'new', {v: l for v, l in zip(names, order)})
+        b = s.impl.mgr[0]
+
+        def tt(u):
+            return oracle.tt_fast(b, u, [vname(i) for i in names])
+
+        def check(what, r, e):
+            if r is None or abs(r) not in b._succ or tt(r) != e:
+                got = None if (r is None or abs(r) not in b._succ) else hex(tt(r))
+                ctx.violation(key, f'{what}: returned {r} denoting {got}, expected {e:#x}',
+                              lambda: dict(stream=s.label, lines=list(s.lines)))
+                return False
+            return True
+        ok = True
+        for _ in range(6):
+            name = rng.choice(['and', 'or', 'xor', 'implies', 'equiv', 'diff'])
+            alias = rng.choice(ALIASES[name])
+            ta, tc = rng.randrange(1, full), rng.randrange(1, full)
+            a = build_tt(s, 0, ta, names)
+            c = build_tt(s, 0, tc, names)
+            if a is None or c is None or abs(a) == 1 or abs(c) == 1:
+                continue
+            e = conn(name, ta, tc, full)
+            scenario = rng.choice('AB')
+            s.op(0, 'incref', a)
+            s.op(0, 'incref', c)
+            r = s.op(0, 'apply', alias, a, c, None)
+            ok = check(f'{scenario}: first {alias}', r, e) and ok
+            if scenario == 'A':
+                s.op(0, 'gc', None)
+                # other functions take the freed numbers
+                for _ in range(rng.randint(1, 3)):
+                    build_tt(s, 0, rng.randrange(full + 1), names)
+                r2 = s.op(0, 'apply', alias, a, c, None)
+                ok = check(f'A: {alias} asked again after collection and re-use', r2, e) and ok
+                s.op(0, 'decref', a)
+                s.op(0, 'decref', c)
+            else:
+                if r is not None and abs(r) != 1:
+                    s.op(0, 'incref', r)
+                s.op(0, 'decref', a)
+                s.op(0, 'gc', None)
+                th = rng.randrange(1, full)
+                h = build_tt(s, 0, th, names)
+                if h is not None:
+                    r2 = s.op(0, 'apply', alias, h, c, None)
+                    ok = check(f'B: {alias} on a function that re-uses a freed number', r2,
+                               conn(name, th, tc, full)) and ok
+                if r is not None and abs(r) != 1:
+                    s.op(0, 'decref', r)
+                s.op(0, 'decref', c)
+            ctx.case((label, 'reuse', scenario, alias, ta, tc, tuple(order)), True)
+            ctx.count('reuse:' + scenario)
+            if not ok:
+                break
